@@ -139,7 +139,7 @@ PROPERTY = dict(
     bounds={'quick': dict(region_start='0..2', region_length='1..5 with <=1 blacklist interval, 2..4 with 2, 6..8 (fetch windows: 6..12) without blacklist', bin_size='1..9', blacklist='<=2 intervals with ends in -1..12, any overlap/order',
                           fragment_size='unbounded >= 0', fill_range='start unbounded, span<=8, step<=9', local_bin_size='E2: stretch and bin size UNBOUNDED (>= 1)', bp_chunked='<=4 tasks, unbounded sizes'),
             'thorough': dict(region_length='1..8', blacklist='<=2')},
-    outside=['BED parsing (get_bins_from_bed_dict)', 'regions longer than 8 / more than 2 blacklist intervals', 'more_itertools.windowed (third party, executed symbolically as is)'],
+    outside=['BED parsing (get_bins_from_bed_dict)', 'regions longer than 8 / more than 2 blacklist intervals', 'more_itertools.windowed (third party, executed symbolically as is)', 'the trailing empty chunk bp_chunked yields when the last bin exactly fills a chunk'],
     assumptions=['float cut in blacklisted_binning: int((start-current)/total_bins) == (start-current)//total_bins for non-negative operands (lemma F); cuts: %r' % (_CUTS,)],
     trusted=['spec/c17.py', 'vlib/floatcut.py'],
 )
